@@ -16,7 +16,7 @@ Proof. induction inputs as [|kv l IH]; intros w; cbn [fold_left]; [reflexivity|]
 Lemma post_init_files w w' ri inputs dflt :
   w_files w = w_files w' -> w_files (post_init w ri inputs dflt) = w_files (post_init w' ri inputs dflt).
 Proof.
-  intros E. unfold post_init. cbv zeta. rewrite !write_files, !fold_write_files, !write_files. now rewrite E.
+  intros E. unfold post_init. cbv zeta. rewrite !write_files, !fold_write_files. now rewrite E.
 Qed.
 
 (* the same finished run, seen from an interpreter with the given live manager processes *)
